@@ -5,6 +5,8 @@ import (
 	"go/ast"
 	"go/token"
 	"go/types"
+	"strconv"
+	"strings"
 )
 
 // ---------------------------------------------------------------- statements
@@ -773,8 +775,29 @@ func (f *Frame) genericLoop(st *State, label string, ls *loopSpec,
 	// 1. invariants hold on entry
 	f.loopInvariants(st, ls, true, "init")
 	// 2. arbitrary iteration
+	pre := st.clone()
+	mark := c.nfresh
 	head := st
 	f.havoc(head, vars, heaps)
+	f.refineHavoc(pre, head, heaps, mark, func(s *State) []*State {
+		lc := &loopCtx{label: label}
+		f.loops = append(f.loops, lc)
+		var outs []*State
+		if condFn != nil {
+			cnd := condFn(s)
+			c.assume(s, cnd)
+		}
+		r := bodyFn(s)
+		f.loops = f.loops[:len(f.loops)-1]
+		rs := append([]*State{r}, lc.continues...)
+		m := c.merge(rs...)
+		if m != nil && postFn != nil {
+			m = postFn(m)
+		}
+		outs = append(outs, m)
+		outs = append(outs, lc.breaks...)
+		return outs
+	})
 	f.loopInvariants(head, ls, false, "")
 	var cond *Term = TTrue
 	if condFn != nil {
@@ -1057,4 +1080,146 @@ func (f *Frame) rangeMap(st *State, s *ast.RangeStmt, label string, ls *loopSpec
 		return f.block(x, s.Body.List)
 	}
 	return f.genericLoop(st, label, ls, condFn, bodyFn, nil)
+}
+
+// refineHavoc narrows the havoc of heap arrays at a loop head: if every write of one iteration (run from the
+// fully havocked head state) goes to an index that is a loop-invariant term (mentions nothing created after
+// `mark`), only those indices are havocked and the rest of the array keeps its pre-loop content.
+func (f *Frame) refineHavoc(pre, head *State, heaps map[string]bool, mark int, run func(s *State) []*State) {
+	c := f.c
+	if len(heaps) == 0 {
+		return
+	}
+	c.discovery++
+	savedRets := f.rets
+	savedOrd := f.loopOrd
+	s0 := head.clone()
+	var outs []*State
+	func() {
+		defer func() {
+			if r := recover(); r != nil {
+				if _, ok := r.(unsupported); ok {
+					outs = nil
+					return
+				}
+				panic(r)
+			}
+		}()
+		outs = run(s0)
+		for _, r := range f.rets[len(savedRets):] {
+			outs = append(outs, r.st)
+		}
+	}()
+	f.rets = savedRets
+	f.loopOrd = savedOrd
+	c.discovery--
+	if outs == nil {
+		return
+	}
+	for _, h := range sortedKeys(heaps) {
+		if h == "ALLOC" {
+			continue
+		}
+		base := head.heap[h]
+		if base == nil {
+			continue
+		}
+		var refs []*Term
+		ok := true
+		for _, o := range outs {
+			if o == nil {
+				continue
+			}
+			t, has := o.heap[h]
+			if !has {
+				continue
+			}
+			rs, good := c.storesOver(t, base, 0)
+			if !good {
+				ok = false
+				break
+			}
+			refs = append(refs, rs...)
+		}
+		if !ok {
+			continue
+		}
+		stable := true
+		for _, r := range refs {
+			if !stableTerm(r, mark) {
+				stable = false
+				break
+			}
+		}
+		if !stable {
+			continue
+		}
+		preT, has := pre.heap[h]
+		if !has {
+			preT = c.heapInitE(h, pre.epoch)
+		}
+		nh := preT
+		seen := map[string]bool{}
+		for _, r := range refs {
+			k := renderTerm(r)
+			if seen[k] {
+				continue
+			}
+			seen[k] = true
+			nh = Store(nh, r, c.fresh("hvcell", elemSort(nh.Sort)))
+		}
+		head.heap[h] = nh
+	}
+}
+
+// storesOver: the indices written when t is a store/ite chain over base; ok=false when t has another shape.
+func (c *Ctx) storesOver(t, base *Term, depth int) ([]*Term, bool) {
+	if depth > 200 {
+		return nil, false
+	}
+	if same(t, base) {
+		return nil, true
+	}
+	if len(t.Args) == 0 {
+		if d, ok := c.defOf[t.Op]; ok {
+			return c.storesOver(d, base, depth+1)
+		}
+		return nil, false
+	}
+	switch t.Op {
+	case "store":
+		rs, ok := c.storesOver(t.Args[0], base, depth+1)
+		if !ok {
+			return nil, false
+		}
+		return append(rs, t.Args[1]), true
+	case "ite":
+		a, ok1 := c.storesOver(t.Args[1], base, depth+1)
+		b, ok2 := c.storesOver(t.Args[2], base, depth+1)
+		if !ok1 || !ok2 {
+			return nil, false
+		}
+		return append(a, b...), true
+	}
+	return nil, false
+}
+
+// stableTerm: every indexed symbol of t was created before mark.
+func stableTerm(t *Term, mark int) bool {
+	if len(t.Args) == 0 {
+		op := strings.Trim(t.Op, "|")
+		i := strings.LastIndexAny(op, "!?")
+		if i >= 0 {
+			if n, err := strconv.Atoi(op[i+1:]); err == nil && n > mark {
+				return false
+			}
+		}
+		return true
+	}
+	for _, a := range t.Args {
+		if !stableTerm(a, mark) {
+			return false
+		}
+	}
+	return true
 }
